@@ -176,6 +176,13 @@ fn do_enclose(spec: &FramerSpec, payload: Vec<u8>) -> String {
     }
 }
 
+/// generator helper: the real `enclose`, or the raw payload if the real code panics (the case then
+/// still reaches `exec`, where the panic is reported through a monitor)
+fn enclose_or_raw(spec: &FramerSpec, payload: Vec<u8>) -> Vec<u8> {
+    let r = do_enclose(spec, payload.clone());
+    if r == "panic" { payload } else { unhex(&r) }
+}
+
 fn do_extract(spec: &FramerSpec, buf: Vec<u8>) -> String {
     match catch(|| {
         with_framer!(spec, f, {
@@ -310,7 +317,11 @@ fn exec_line(line: &str, ex: &mut Exec) -> String {
         "enclose" => {
             let spec = parse_framer(w[1]);
             ex.tag(format!("op:enclose:{}", w[1].split(':').next().unwrap()));
-            do_enclose(&spec, unhex(w[2]))
+            let r = do_enclose(&spec, unhex(w[2]));
+            if r == "panic" {
+                ex.fail("C13:enclose-panic", line.to_string());
+            }
+            r
         }
         "extract" => {
             let spec = parse_framer(w[1]);
@@ -443,7 +454,7 @@ fn generate(tier: &str, rng: &mut Rng) -> Vec<Case> {
                 // extract on hostile / near-valid bytes
                 let mut b = if rng.chance(1, 2) {
                     let p = rng.bytes_from_upto(20, b"ab\n\xc3\xa9\x00\x01\xff");
-                    unhex(&do_enclose(&spec, p))
+                    enclose_or_raw(&spec, p)
                 } else {
                     rng.bytes_from_upto(24, b"ab\n\x00\x00\x00\x01\x02\xff\xff")
                 };
@@ -542,7 +553,7 @@ fn generate(tier: &str, rng: &mut Rng) -> Vec<Case> {
             let spec = parse_framer(fs);
             let enc: usize = frames
                 .iter()
-                .map(|p| unhex(&do_enclose(&spec, p.clone())).len())
+                .map(|p| enclose_or_raw(&spec, p.clone()).len())
                 .sum();
             let wf = frames.iter().all(|p| wellformed(&spec, p));
             for comp in compositions(enc) {
